@@ -718,6 +718,32 @@ pub fn run(ctx: &mut Ctx) {
         f.cuts = vec![8000];
         op_preq(ctx, &ser(&frame_block(&blk, &f), true));
     }
+    // which inputs the HTTP/2 adapter accepts at all (`can_process_request || can_process_response`):
+    // first frame type 0..=12, announced length around 16384, fewer than 9 / 24 octets
+    {
+        let mut enc = Enc::new();
+        let blk = enc.encode_block(&mut r0, &EncOpts::plain(), &[h(":status", "200"), h("x-a", "b")]);
+        let msg = frame_block(&blk, &Framing::plain(1));
+        for ty in 0..=12u8 {
+            for len in [0usize, 5, 16384, 16385] {
+                let mut frames = vec![GFrame::new(ty, 0, 0, vec![0u8; len])];
+                frames.extend(msg.clone());
+                let b = ser(&frames, false);
+                op_oresp(ctx, &b);
+                op_oreq(ctx, &b);
+            }
+        }
+        let b = ser(&msg, false);
+        for k in 0..=12usize {
+            op_oresp(ctx, &b[..k.min(b.len())]);
+        }
+        let rq = ser(&frame_block(&block, &Framing::plain(1)), true);
+        for k in [0usize, 1, 9, 23, 24, 25, 32, 33, 40] {
+            op_oreq(ctx, &rq[..k.min(rq.len())]);
+            op_oresp(ctx, &rq[..k.min(rq.len())]);
+            op_preq(ctx, &rq[..k.min(rq.len())]);
+        }
+    }
     // status strings
     for st in ["200", "0", "00200", "65535", "65536", "+7", "-1", " 200", "2 0", "", "٣"] {
         let mut enc = Enc::new();
